@@ -2,10 +2,20 @@
 
 // C01, protocol pairings inside the HTTP family: an HTTP/1.1 listener in front
 // of an HTTP/2 cluster and an HTTP/2 listener in front of an HTTP/1.1 cluster
-// (MOSN converts between the two without any configured filter: the statement's
-// "all protocol pairings of listener and cluster"). Same real proxy stack and
-// same observation discipline as the HTTP/1 and HTTP/2 harnesses; the harness
-// speaks the listener's protocol downstream and the cluster's protocol upstream.
+// (the statement's "all protocol pairings of listener and cluster"), each
+// through BOTH mechanisms by which MOSN can be configured for such a pairing:
+//
+//	route       the route action carries upstream_protocol, no stream filter
+//	transcoder  the listener carries the stream filter "transcoder" with type
+//	            http2Tohttp / httpTohttp2 (pkg/filter/stream/transcoder/httpconv):
+//	            the filter converts the header object and selects the upstream
+//	            protocol; the request line of the upstream request is then rebuilt
+//	            from the variables the downstream stream published
+//	            (VarPath / VarPathOriginal / VarQueryString)
+//
+// Same real proxy stack and same observation discipline as the HTTP/1 and
+// HTTP/2 harnesses; the harness speaks the listener's protocol downstream and
+// the cluster's protocol upstream.
 package proxy
 
 import (
@@ -14,12 +24,17 @@ import (
 	"sort"
 	"strconv"
 	"strings"
+	"sync"
 	"testing"
 	"time"
 
 	"golang.org/x/net/http2"
 	"mosn.io/api"
+	v2 "mosn.io/mosn/pkg/config/v2"
+	_ "mosn.io/mosn/pkg/filter/stream/transcoder"
+	_ "mosn.io/mosn/pkg/filter/stream/transcoder/httpconv"
 	"mosn.io/mosn/pkg/protocol"
+	"mosn.io/mosn/pkg/streamfilter"
 	"mosn.io/mosn/pkg/verifrt/vreport"
 )
 
@@ -41,9 +56,12 @@ type c01xResp struct {
 
 func c01xFromH1Req(m *c01hMsg) *c01xReq {
 	r := &c01xReq{Body: m.Body}
-	parts := strings.Split(m.Line, " ")
-	if len(parts) == 3 {
-		r.Method, r.Target = parts[0], parts[1]
+	// method = up to the first SP, version = after the last SP, request-target = everything
+	// in between: a forwarded target that contains a SP (a decoded %20) is then reported as
+	// what it is - a changed request-target - and not only as a malformed line
+	first, last := strings.IndexByte(m.Line, ' '), strings.LastIndexByte(m.Line, ' ')
+	if first > 0 && last > first && strings.HasPrefix(m.Line[last+1:], "HTTP/") {
+		r.Method, r.Target = m.Line[:first], m.Line[first+1:last]
 	} else {
 		r.Notes = append(r.Notes, "malformed request line "+strconv.Quote(m.Line))
 	}
@@ -94,13 +112,62 @@ type c01xObs struct {
 	info  string
 }
 
-// c01xRun: one exchange, downstream protocol dp, upstream protocol up.
-func c01xRun(c *c01hCase, dp, up api.ProtocolName) (obs c01xObs, harness string) {
-	return c01hRerun(func() (c01xObs, string) { return c01xRunOnce(c, dp, up) })
+var c01xOnce sync.Once
+
+// c01xTranscoderType: the converter of pkg/filter/stream/transcoder/httpconv for a pairing.
+func c01xTranscoderType(dp api.ProtocolName) string {
+	if dp == protocol.HTTP2 {
+		return "http2Tohttp"
+	}
+	return "httpTohttp2"
 }
 
-func c01xRunOnce(c *c01hCase, dp, up api.ProtocolName) (obs c01xObs, harness string) {
-	s, h := c01hNewSessionProtos(dp, up)
+func c01xTranscoderListener(dp api.ProtocolName) string {
+	return c01hListener + "-transcoder-" + c01xTranscoderType(dp)
+}
+
+// c01xInit registers, per pairing, a listener whose only stream filter is the transcoder
+// in its plain form {"type": <converter>} (what a listener's stream_filters entry
+// {"type":"transcoder","config":{"type":"http2Tohttp"}} yields): conversion only, no
+// rewrite of any kind, no matcher rule.
+func c01xInit() {
+	c01hInit()
+	c01xOnce.Do(func() {
+		for _, dp := range []api.ProtocolName{protocol.HTTP1, protocol.HTTP2} {
+			cfg := []v2.Filter{{Type: v2.Transcoder, Config: map[string]interface{}{"type": c01xTranscoderType(dp)}}}
+			if err := streamfilter.GetStreamFilterManager().AddOrUpdateStreamFilterConfig(c01xTranscoderListener(dp), cfg); err != nil {
+				panic(err)
+			}
+		}
+	})
+}
+
+// c01xRun: one exchange through pairing pr.
+func c01xRun(c *c01hCase, pr *c01xPair) (obs c01xObs, harness string) {
+	return c01hRerun(func() (c01xObs, string) {
+		o, h := c01xRunOnce(c, pr)
+		if h != "" {
+			h = pr.name + " " + c.Method + " " + c.Target + ": " + h
+		}
+		return o, h
+	})
+}
+
+func c01xRunOnce(c *c01hCase, pr *c01xPair) (obs c01xObs, harness string) {
+	c01xInit()
+	dp, up := pr.dp, pr.up
+	var s *c01hSession
+	var h string
+	if pr.mech == "transcoder" {
+		// the route says nothing about the upstream protocol: the filter selects it
+		s, h = c01hNewSessionCfg(dp, up, c01xTranscoderListener(dp), c01hRouter)
+		if h == "" && s.p.streamFilterFactory == nil {
+			s.close()
+			return obs, "the proxy found no stream filter configuration for the transcoder listener"
+		}
+	} else {
+		s, h = c01hNewSessionProtos(dp, up)
+	}
 	if h != "" {
 		return obs, h
 	}
@@ -293,11 +360,65 @@ func c01xRunOnce(c *c01hCase, dp, up api.ProtocolName) (obs c01xObs, harness str
 	return obs, ""
 }
 
+// c01xPctDecode: every %XX triplet replaced by its byte, nothing else touched.
+func c01xPctDecode(s string) string {
+	hex := func(b byte) int {
+		switch {
+		case b >= '0' && b <= '9':
+			return int(b - '0')
+		case b >= 'a' && b <= 'f':
+			return int(b-'a') + 10
+		case b >= 'A' && b <= 'F':
+			return int(b-'A') + 10
+		}
+		return -1
+	}
+	var out []byte
+	for i := 0; i < len(s); i++ {
+		if s[i] == '%' && i+2 < len(s) && hex(s[i+1]) >= 0 && hex(s[i+2]) >= 0 {
+			out = append(out, byte(hex(s[i+1])<<4|hex(s[i+2])))
+			i += 2
+			continue
+		}
+		out = append(out, s[i])
+	}
+	return string(out)
+}
+
+// c01xTargetClass names how the forwarded request-target differs: the classes of the
+// same-protocol parts, plus two that only a conversion produces - the path arrives with its
+// percent-escapes decoded (the raw bytes, e.g. a SP, in the request line) or re-encoded
+// (same decoded path, other escapes).
+func c01xTargetClass(sent, got string) string {
+	sp, sq, sHasQ := strings.Cut(sent, "?")
+	gp, gq, gHasQ := strings.Cut(got, "?")
+	if strings.Contains(sp, "%") && got == c01xPctDecode(sp)+sent[len(sp):] {
+		return "path-percent-escapes-decoded" // also when a decoded '?' moves the split point
+	}
+	if sp != gp && strings.Contains(sp, "%") {
+		sameQuery := ""
+		if sq != gq || sHasQ != gHasQ {
+			sameQuery = "-and-query-changed"
+		}
+		if gp == c01xPctDecode(sp) {
+			return "path-percent-escapes-decoded" + sameQuery
+		}
+		if c01xPctDecode(gp) == c01xPctDecode(sp) {
+			return "path-percent-escapes-re-encoded" + sameQuery
+		}
+	}
+	// a target without '?' whose forwarded form splits at a decoded '?' etc. falls through
+	return c01hTargetClass(sent, got)
+}
+
 var c01xIgnored = map[string]bool{"connection": true, "content-length": true, "transfer-encoding": true}
 
 func c01xJudge(pair string, c *c01hCase, obs *c01xObs, dp, up api.ProtocolName) []c01hFinding {
 	var out []c01hFinding
 	add := func(key, detail string) { out = append(out, c01hFinding{pair + " " + key, detail}) }
+	if obs.local && c01xIsRawTarget(c.Target) && !strings.HasPrefix(obs.info, "request-dropped-without-reply") {
+		return out // not a request URI: refusing it is not forbidden
+	}
 	if obs.local {
 		what := "connection-closed-or-stream-error"
 		detail := obs.info
@@ -318,8 +439,8 @@ func c01xJudge(pair string, c *c01hCase, obs *c01xObs, dp, up api.ProtocolName) 
 	if rq.Method != c.Method {
 		add("dir=request method-changed", fmt.Sprintf("sent %s %s, forwarded method %q", c.Method, c.Target, rq.Method))
 	}
-	if rq.Target != c.Target {
-		add("dir=request request-target "+c01hTargetClass(c.Target, rq.Target), fmt.Sprintf("sent target %q, forwarded %q", c.Target, rq.Target))
+	if rq.Target != c.Target && !c01xIsRawTarget(c.Target) {
+		add("dir=request request-target "+c01xTargetClass(c.Target, rq.Target), fmt.Sprintf("sent target %q, forwarded %q", c.Target, rq.Target))
 	}
 	if c.Host != "" && (!rq.HasAuthority || rq.Authority != c.Host) {
 		add("dir=request authority-changed", fmt.Sprintf("sent Host/:authority %q, forwarded %q (present=%v)", c.Host, rq.Authority, rq.HasAuthority))
@@ -341,6 +462,13 @@ func c01xJudge(pair string, c *c01hCase, obs *c01xObs, dp, up api.ProtocolName) 
 	}
 	if len(rs.Notes) > 0 {
 		add("dir=response unexpected-extras", strings.Join(rs.Notes, "; "))
+	}
+	if c.Method == "HEAD" && c.Status != 504 && rs.Status == "504" {
+		// the upstream's answer to HEAD was injected completely (header section, no body) and the
+		// client got the proxy's own timeout reply instead: one key, not the field-by-field
+		// difference between two unrelated messages
+		add("dir=response not-forwarded head-response-awaits-a-body local-reply status=504", fmt.Sprintf("upstream answered HEAD with %d %v, downstream got the proxy's reply %s %v", c.Status, c.RespFields, rs.Status, rs.Fields))
+		return out
 	}
 	if rs.Status != strconv.Itoa(c.Status) {
 		add("dir=response status-code-changed", fmt.Sprintf("upstream answered %d, downstream got %q", c.Status, rs.Status))
@@ -365,9 +493,23 @@ func c01xJudge(pair string, c *c01hCase, obs *c01xObs, dp, up api.ProtocolName) 
 type c01xPair struct {
 	name   string
 	dp, up api.ProtocolName
+	mech   string // route | transcoder
 }
 
-var c01xPairs = []c01xPair{{"http1->http2", protocol.HTTP1, protocol.HTTP2}, {"http2->http1", protocol.HTTP2, protocol.HTTP1}}
+// The route pairings keep their historic names (recorded finding keys). http2->http1 by route
+// runs LAST: every exchange of it panics in the proxy worker (recorded finding), and the
+// recovered panic leaves a poisoned object behind - downStream.giveStream returns the stream
+// to its sync.Pool and the HTTP/2 server stream's reset callback then marks the recycled
+// object as reset (observed with debug logs: "giveStream" followed by "[downStream] reset
+// stream reason StreamRemoteReset"), so the NEXT request that gets the object from the pool,
+// of whatever pairing, ends in processError=downstreamReset without reply. Nothing of this
+// unit runs after that part in the test process.
+var c01xPairs = []c01xPair{
+	{"http1->http2", protocol.HTTP1, protocol.HTTP2, "route"},
+	{"http1->http2/transcoder", protocol.HTTP1, protocol.HTTP2, "transcoder"},
+	{"http2->http1/transcoder", protocol.HTTP2, protocol.HTTP1, "transcoder"},
+	{"http2->http1", protocol.HTTP2, protocol.HTTP1, "route"},
+}
 
 type c01xCase struct {
 	Pair string   `json:"pair"`
@@ -386,9 +528,9 @@ func c01xCheck(p *vreport.Part, xc c01xCase) {
 		return
 	}
 	c := xc.C
-	obs, harness := c01xRun(&c, pr.dp, pr.up)
+	obs, harness := c01xRun(&c, pr)
 	if harness != "" {
-		vreport.HarnessError("C01", p.Name, fmt.Sprintf("%s %s %s: %s", xc.Pair, c.Method, c.Target, harness))
+		vreport.HarnessError("C01", p.Name, harness)
 		return
 	}
 	var keys []string
@@ -403,7 +545,11 @@ func c01xCheck(p *vreport.Part, xc c01xCase) {
 		}
 	}
 	sort.Strings(names)
-	p.Outcome(fmt.Sprintf("%s|local=%v|%s|%s", xc.Pair, obs.local, strings.Join(keys, ","), strings.Join(names, ",")))
+	raw := ""
+	if obs.req != nil && c01xIsRawTarget(c.Target) {
+		raw = "|raw-target " + c.Target + " forwarded as " + obs.req.Target
+	}
+	p.Outcome(fmt.Sprintf("%s|local=%v|%s|%s%s", xc.Pair, obs.local, strings.Join(keys, ","), strings.Join(names, ","), raw))
 	if p.WantSample() {
 		smp := map[string]interface{}{"case": xc}
 		if obs.req != nil {
@@ -416,21 +562,61 @@ func c01xCheck(p *vreport.Part, xc c01xCase) {
 	}
 }
 
-// One part per pairing.
+// c01xEscTargets: the escaped-path alphabet beyond the segment alphabet. What matters to a
+// conversion that hands the path over in decoded + escaped form (net/url: Path / RawPath /
+// EscapedPath; fasthttp: Path / PathOriginal) is whether an escape is the CANONICAL encoding
+// of its byte for the library in between (upper-case hex of a byte that must be escaped:
+// SP, '"', '<', '>', '`', '{', '}', '|', '\\', '^', '%', non-ASCII) or not (escapes of
+// reserved / unreserved bytes: %2F %3B %3F %23 %3A %40 %26 %3D %2B %24 %2C %41 %7E,
+// lower-case hex), alone and mixed in one path, with and without a query.
+var c01xEscTargets = []string{
+	// canonical escapes
+	"/a%20b/c", "/%22", "/a%22b%22", "/%3C%3E", "/%60", "/%7B%7D", "/%7C", "/%5C", "/%5E", "/%25", "/%2520", "/%7F", "/%01", "/%E4%B8%AD%E6%96%87/x", "/%E4%B8%AD", "/%F0%9F%98%80", "/%FF%FE", "/%C3%A4/%20/%22",
+	"/a%20b?q=%20", "/%E4%B8%AD%E6%96%87/x?q=%20", "/%22?", "/%20?a=b?c",
+	// non-canonical escapes (of bytes that need none, or in lower-case hex)
+	"/a%2Fb/c", "/a%3Bb", "/semi%3Bcolon%3Fmark", "/a%3Fb", "/a%3Fb?c", "/a%23b", "/a%3Ab%40c", "/a%26b%3Dc", "/a%2Bb", "/a%24%2C", "/%7Ea", "/%2E", "/%2E%2E/a", "/a/%2e%2e/b", "/%e4%b8%ad", "/a%3bb",
+	// both kinds in one path
+	"/a%20b%2Fc", "/%2F%20", "/%20%2F", "/%E4%B8%AD%2F%E6%96%87", "/a%3Bb%20c", "/%41%20", "/a%20b//c", "/a%20b/../c", "/a%20b/./c", "/%20/..", "//%20",
+	"/a%5Bb%5D",
+}
+
+// c01xRawTargets: paths with raw bytes outside the path grammar of RFC 3986 ('|' '^' '{' '}'
+// '`' '\\' '"' '<' '>' '[' ']') that clients nevertheless send. They are not request URIs in the
+// sense of the statement ("every request URI"), and a conversion through net/url escapes such
+// a byte ('/a|b' -> '/a%7Cb'): ENUMERATED (must be forwarded or refused, everything else of the
+// exchange is compared), the request-target itself is NOT compared, its observed form is
+// recorded in the outcome.
+var c01xRawTargets = []string{"/a|b", "/a|b%2Fc", "/a|b%20c", "/a^b", "/{a}", "/a`b", "/a\\b", "/a\"b", "/<a>", "/a[b]"}
+
+func c01xIsRawTarget(t string) bool {
+	for _, r := range c01xRawTargets {
+		if r == t {
+			return true
+		}
+	}
+	return false
+}
+
+// One part per pairing and mechanism.
 func TestVerifC01HTTPXCross(t *testing.T) {
 	for _, pr := range c01xPairs {
 		pr := pr
 		p := vreport.Begin("C01", "http-cross-"+pr.name, time.Duration(vreport.Pick(3, 15))*time.Minute)
-		maxSeg := vreport.Pick(1, 2)
-		maxFields := vreport.Pick(1, 2)
+		maxSeg := vreport.Pick(2, 3)
+		maxFields := vreport.Pick(2, 3)
 		ua := c01hField{"User-Agent", "c01-agent/1.0"}
+		// HEAD through http2->http1/transcoder ends in MOSN's own 60 s route timeout on the wall
+		// clock (recorded finding: the HTTP/1 client stream does not know the method was HEAD and
+		// waits for a body): one representative, thorough tier only
+		headHangs := pr.name == "http2->http1/transcoder"
+		allDropped := pr.name == "http2->http1"
 		gen := func(yield func(c01xCase) bool) {
 			emit := func(c c01hCase) bool { return yield(c01xCase{Pair: pr.name, C: c}) }
-			if pr.name == "http2->http1" {
+			if allDropped {
 				// every exchange of this pairing ends the same way (see the finding): a handful of
 				// representatives, so that a repaired tree is noticed, not the full product
 				for _, m := range []string{"GET", "POST"} {
-					for _, tg := range []string{"/a", "/%2F/a//b/../c?a=%20&b", "/a?"} {
+					for _, tg := range []string{"/a", "/%2F/a//b/../c?a=%20&b", "/a?", "/a%20b/%E4%B8%AD?q=%22"} {
 						c := c01hBase("x")
 						c.Target = tg
 						c.ReqFields = []c01hField{ua, {"x-a", "1"}}
@@ -445,23 +631,35 @@ func TestVerifC01HTTPXCross(t *testing.T) {
 				return
 			}
 			// targets
-			for _, path := range append(c01hPaths(maxSeg), c01hExtraTargets...) {
-				qs := c01hQueries
-				if strings.Contains(path, "?") {
-					qs = []string{""}
+			var targets []string
+			for _, path := range c01hPaths(maxSeg) {
+				for _, q := range c01hQueries {
+					targets = append(targets, path+q)
 				}
-				for _, q := range qs {
-					for _, m := range []string{"GET", "POST"} {
-						c := c01hBase("x")
-						c.Target = path + q
-						c.ReqFields = []c01hField{ua}
-						if m == "POST" {
-							c = c01hWithBody(c, m, "lit:req", "cl")
-						}
-						if !emit(c) {
-							return
-						}
+			}
+			targets = append(targets, c01hExtraTargets...)
+			targets = append(targets, c01xEscTargets...)
+		targets = append(targets, c01xRawTargets...)
+			for _, tg := range targets {
+				for _, m := range []string{"GET", "POST"} {
+					c := c01hBase("x")
+					c.Target = tg
+					c.ReqFields = []c01hField{ua}
+					if m == "POST" {
+						c = c01hWithBody(c, m, "lit:req", "cl")
 					}
+					if !emit(c) {
+						return
+					}
+				}
+			}
+			// asterisk-form
+			{
+				c := c01hBase("x")
+				c.Method, c.Target = "OPTIONS", "*"
+				c.ReqFields = []c01hField{ua}
+				if !emit(c) {
+					return
 				}
 			}
 			// header sets
@@ -486,6 +684,9 @@ func TestVerifC01HTTPXCross(t *testing.T) {
 			}
 			for _, st := range []int{200, 201, 204, 301, 304, 404, 500, 503} {
 				for _, m := range []string{"GET", "HEAD"} {
+					if m == "HEAD" && headHangs && !(vreport.Thorough() && st == 200) {
+						continue
+					}
 					c := c01hBase("x")
 					c.ReqFields = []c01hField{ua}
 					c.Method, c.Status = m, st
@@ -502,12 +703,20 @@ func TestVerifC01HTTPXCross(t *testing.T) {
 			p.Distinct(fmt.Sprintf("%s|%s|%s|%s|%d|%s", xc.C.Method, xc.C.Target, c01hFieldsKey(xc.C.ReqFields), c01hFieldsKey(xc.C.RespFields), xc.C.Status, xc.C.RespBody))
 			c01xCheck(p, xc)
 		})
-		bound := fmt.Sprintf("pairing %s through the real proxy (route upstream_protocol), no transcoder filter: targets (paths of <= %d segments x queries + %d further targets) x {GET, POST+body}; request x response field sets of <= %d fields (full product); bodies {0,1,all byte values,4096,16385}; status {200,201,204,301,304,404,500,503} x {GET,HEAD}", pr.name, maxSeg, len(c01hExtraTargets), maxFields)
-		if pr.name == "http2->http1" {
-			bound = "pairing http2->http1 through the real proxy (route upstream_protocol), no transcoder filter: 6 representative exchanges ({GET, POST+body} x 3 targets) - every exchange of this pairing ends in the recorded finding"
+		how := "route upstream_protocol, no stream filter"
+		if pr.mech == "transcoder" {
+			how = "stream filter transcoder type " + c01xTranscoderType(pr.dp) + " on the listener, route without upstream_protocol"
+		}
+		headNote := ""
+		if headHangs {
+			headNote = "; HEAD: only HEAD->200, thorough tier only (each HEAD exchange of this pairing waits for MOSN's 60 s timeout, recorded finding)"
+		}
+		bound := fmt.Sprintf("pairing %s through the real proxy (%s): request-targets ((paths of <= %d segments over the segment alphabet x 6 query forms) + %d further targets + %d escaped-path targets + %d raw-byte targets whose target is not compared (canonical escapes %%20 %%22 %%3C %%7C %%25 %%E4%%B8%%AD.., non-canonical %%2F %%3B %%3F %%23 %%41 lower-case hex, both mixed, raw bytes net/url would escape, with '//' '..' '.' and queries)) x {GET, POST+body}, OPTIONS *; request x response field sets of <= %d fields (full product); bodies {0,1,all byte values,4096,16385}; status {200,201,204,301,304,404,500,503} x {GET,HEAD}%s", pr.name, how, maxSeg, len(c01hExtraTargets), len(c01xEscTargets), len(c01xRawTargets), maxFields, headNote)
+		if allDropped {
+			bound = "pairing http2->http1 through the real proxy (route upstream_protocol, no stream filter): 8 representative exchanges ({GET, POST+body} x 4 targets) - every exchange of this pairing ends in the recorded finding (the worker panics before the request line is built); run as the last part, see c01xPairs"
 		}
 		c01hReportRecovered(p)
 		p.End(complete, bound,
-			"compared like the same-protocol parts: method, request-target byte-for-byte, Host/:authority, header multiset (Connection / Content-Length / Transfer-Encoding not compared, connection-specific fields cannot cross into HTTP/2; Date added when absent not compared), body; status code, header multiset, body")
+			"complete product; compared like the same-protocol parts: method, request-target byte-for-byte (finding classes: path-percent-escapes-decoded / -re-encoded / path-changed / query-changed / empty-query-question-mark-dropped), Host/:authority, header multiset (Connection / Content-Length / Transfer-Encoding not compared, connection-specific fields cannot cross into HTTP/2; Date added when absent not compared), body; status code, header multiset, body")
 	}
 }
